@@ -636,6 +636,14 @@ RestoreFrom(s, pkts, i) ==
                            ELSE [s1 EXCEPT !.puback = @ \cup {e.pid}]
                  IN  RestoreFrom(s2, pkts, i + 1)
 RestorePackets(s, pkts) == RestoreFrom(s, pkts, 1)
+
+(* regulate_for_store(p): the form a v5.0 PUBLISH takes in the store - full topic, no Topic Alias property.  A pure query:
+   the alias table is only peeked at (no LRU touch).  An alias-only PUBLISH whose alias is unknown cannot be regulated. *)
+Regulate(s, p) ==
+  IF p.topic # "" THEN [ok |-> TRUE, pkt |-> Sized([p EXCEPT !.alias = 0], s.idw)]
+  ELSE LET t == IF p.alias # 0 /\ s.taSend.max > 0 THEN TaTopicOf(s.taSend, p.alias) ELSE "" IN
+       IF t = "" THEN [ok |-> FALSE, pkt |-> p]
+       ELSE [ok |-> TRUE, pkt |-> Sized([p EXCEPT !.topic = t, !.alias = 0], s.idw)]
 RestoreQos2(s, ids) == [s EXCEPT !.qos2 = ids]
 
 SendCount(s) == Cardinality(s.cnt)
